@@ -97,8 +97,7 @@ Qed.
 (* ------------------------------------------------------------------------------ *)
 (* 3. the repaired function: total, exact split, a true median of sorted data *)
 
-Definition med2 (v : list Z) : Z :=
-  match v with [] => 0 | _ => nth ((length v - 1) / 2) v 0 + nth (length v / 2) v 0 end.
+Definition med2 (v : list Z) : Z := conv_median2 v.
 
 Lemma fms_fixed_ok v :
   fms true v = Ok (med2 v, firstn (length v / 2) v, skipn (length v - length v / 2) v).
@@ -108,7 +107,7 @@ Proof.
   destruct (Z.of_nat n =? 0) eqn:E0.
   - assert (n = 0%nat) by lia. destruct v; [reflexivity | simpl in n; lia].
   - assert (Hm : med2 v = nth ((n - 1) / 2) v 0 + nth (n / 2) v 0).
-    { unfold med2. destruct v; [simpl in n; lia | reflexivity]. }
+    { unfold med2, conv_median2. destruct v; [simpl in n; lia | reflexivity]. }
     rewrite Hm. destruct (Z.of_nat n mod 2 =? 0) eqn:Ep.
     + rewrite (zget_ok v (Z.of_nat n / 2 - 1)) by (rewrite ?Hz; lia). rewrite (zget_ok v (Z.of_nat n / 2)) by (rewrite ?Hz; lia).
       rewrite (zslice_ok v 0 (Z.of_nat n / 2)) by (rewrite ?Hz; lia).
@@ -175,7 +174,7 @@ Lemma med2_is_median v : sortedZ v = true -> v <> [] -> is_median2 v (med2 v) = 
 Proof.
   intros Hs Hne. apply sortedZ_SS in Hs. set (n := length v).
   assert (Hn : (1 <= n)%nat) by (destruct v; [contradiction | simpl in n; lia]).
-  assert (Hm : med2 v = nth ((n - 1) / 2) v 0 + nth (n / 2) v 0) by (unfold med2; destruct v; [contradiction | reflexivity]).
+  assert (Hm : med2 v = nth ((n - 1) / 2) v 0 + nth (n / 2) v 0) by (unfold med2, conv_median2; destruct v; [contradiction | reflexivity]).
   set (lo := ((n - 1) / 2)%nat) in *. set (hi := (n / 2)%nat) in *.
   assert (Hlohi : (lo <= hi < n)%nat) by (unfold lo, hi; lia).
   pose proof (SS_nth_le v Hs lo hi Hlohi) as Hle.
@@ -197,28 +196,29 @@ Qed.
 Lemma Zlist_eqb_refl l : Zlist_eqb l l = true.
 Proof. apply (list_eqb_eq Z.eqb); [intros; apply Z.eqb_eq | reflexivity]. Qed.
 
+Lemma Zlist_eqb_eq a b : Zlist_eqb a b = true <-> a = b.
+Proof. apply (list_eqb_eq Z.eqb). intros; apply Z.eqb_eq. Qed.
+
 (* the repaired function passes the checker on every input *)
 Lemma fms_fixed_passes v : C20_fms_check v (res_opt (fms true v)) = true.
 Proof.
   rewrite fms_fixed_ok. cbn [res_opt C20_fms_check]. rewrite !Zlist_eqb_refl. cbn [andb].
-  destruct (sortedZ v) eqn:Es; [|reflexivity]. cbn [negb orb].
-  destruct v as [|x t] eqn:Ev; [reflexivity|]. rewrite <- Ev in *. apply med2_is_median; [exact Es | congruence].
+  unfold med2. rewrite Z.eqb_refl. apply orb_true_r.
 Qed.
 
 Definition C20_fms_spec (data : list Z) (obs : option (Z * list Z * list Z)) : Prop :=
   exists m2 a b, obs = Some (m2, a, b) /\
     a = firstn (length data / 2) data /\ b = skipn (length data - length data / 2) data /\
-    (sortedZ data = true -> (data = [] /\ m2 = 0) \/ (data <> [] /\ is_median2 data m2 = true)).
-
-Lemma Zlist_eqb_eq a b : Zlist_eqb a b = true <-> a = b.
-Proof. apply (list_eqb_eq Z.eqb). intros; apply Z.eqb_eq. Qed.
+    (sortedZ data = true -> m2 = conv_median2 data /\ (data <> [] -> is_median2 data m2 = true)).
 
 Lemma C20_fms_check_sound data obs : C20_fms_check data obs = true -> C20_fms_spec data obs.
 Proof.
   unfold C20_fms_check, C20_fms_spec. destruct obs as [[[m2 a] b]|]; [|discriminate].
   rewrite !andb_true_iff. intros [[H1 H2] H3]. apply Zlist_eqb_eq in H1, H2.
-  exists m2, a, b. repeat split; auto. intro Hs. rewrite Hs in H3. cbn [negb orb] in H3.
-  destruct data; [left; split; [reflexivity | lia] | right; split; [discriminate | exact H3]].
+  exists m2, a, b. repeat split; auto.
+  - rewrite H in H3. cbn [negb orb] in H3. lia.
+  - intro Hne. rewrite H in H3. cbn [negb orb] in H3. assert (m2 = conv_median2 data) by lia. subst m2.
+    apply med2_is_median; assumption.
 Qed.
 
 (* ------------------------------------------------------------------------------ *)
@@ -572,14 +572,72 @@ Lemma C20_verdict_check_sound ts obs :
   C20_verdict_check ts obs = true -> obs = verdict_spec ts.
 Proof. unfold C20_verdict_check. intro H. apply eqb_prop in H. exact H. Qed.
 
+Lemma insertZ_sorted x l : StronglySorted Z.le l -> StronglySorted Z.le (insertZ x l).
+Proof.
+  induction 1 as [|y t Hs IH Hall]; simpl; [constructor; constructor|].
+  destruct (x <=? y) eqn:E.
+  - constructor; [constructor; assumption|]. constructor; [lia|].
+    eapply Forall_impl; [|exact Hall]. simpl. intros. lia.
+  - constructor; [exact IH|]. clear IH. assert (y <= x) by lia.
+    assert (G : forall l', Forall (Z.le y) l' -> Forall (Z.le y) (insertZ x l')).
+    { induction l' as [|z r IHr]; simpl; intro Hf; [constructor; [assumption | constructor]|].
+      inversion Hf; subst. destruct (x <=? z); constructor; auto. }
+    apply G. exact Hall.
+Qed.
+
+Lemma sortZ_sorted l : StronglySorted Z.le (sortZ l).
+Proof. induction l as [|x t IH]; simpl; [constructor | apply insertZ_sorted; exact IH]. Qed.
+
+Lemma SS_sortedZ l : StronglySorted Z.le l -> sortedZ l = true.
+Proof.
+  induction 1 as [|x t Hs IH Hall]; [reflexivity|]. destruct t as [|y t']; [reflexivity|].
+  cbn [sortedZ]. inversion Hall; subst. apply andb_true_iff. split; [lia | exact IH].
+Qed.
+
+Lemma insertZ_perm x l : Permutation (insertZ x l) (x :: l).
+Proof.
+  induction l as [|y t IH]; simpl; [reflexivity|]. destruct (x <=? y); [reflexivity|].
+  rewrite IH. apply perm_swap.
+Qed.
+
+Lemma sortZ_perm l : Permutation (sortZ l) l.
+Proof. induction l as [|x t IH]; simpl; [reflexivity|]. rewrite insertZ_perm. constructor. exact IH. Qed.
+
+Lemma is_median2_perm l1 l2 m : Permutation l1 l2 -> is_median2 l1 m = is_median2 l2 m.
+Proof.
+  intro Hp. unfold is_median2, zlen.
+  assert (G : forall p : Z -> bool, length (filter p l1) = length (filter p l2)).
+  { intro p. induction Hp; simpl; try congruence.
+    - destruct (p x); simpl; congruence.
+    - destruct (p x), (p y); reflexivity. }
+  rewrite (Permutation_length Hp), !G. reflexivity.
+Qed.
+
+(* what the summary checker establishes: the printed median is the conventional median of the
+   data (hence a median: half of the values on either side), the quartiles are the medians of
+   the lower and upper halves, IQR and fences follow *)
 Lemma C20_summary_check_sound data obs :
   C20_summary_check data obs = true ->
   exists s, obs = Some s /\
-    (data <> [] -> is_median2 data (s_med4 s / 2) = true /\ s_iqr4 s = s_q3_4 s - s_q1_4 s /\
-                   ((2 <= length data)%nat -> s_q1_4 s <= s_med4 s <= s_q3_4 s)).
+    s_med4 s = 2 * conv_median2 (sortZ data) /\
+    s_q1_4 s = 2 * conv_median2 (firstn (length data / 2) (sortZ data)) /\
+    s_q3_4 s = 2 * conv_median2 (skipn (length data - length data / 2) (sortZ data)) /\
+    s_iqr4 s = s_q3_4 s - s_q1_4 s /\
+    (data <> [] -> is_median2 data (s_med4 s / 2) = true).
 Proof.
   unfold C20_summary_check. destruct obs as [s|]; [|discriminate]. intro H. exists s. split; [reflexivity|].
-  intro Hne. destruct data as [|x t] eqn:Ed; [contradiction|]. rewrite <- Ed in *. rewrite !andb_true_iff in H.
-  destruct H as [[[[[H1 H2] H3] H4] H5] H6]. split; [exact H1|]. split; [lia|].
-  intro Hl. apply orb_true_iff in H3. destruct H3 as [H3|H3]; [apply Nat.ltb_lt in H3; lia | lia].
+  rewrite sortZ_length in H. rewrite !andb_true_iff in H. destruct H as [[[[[H1 H2] H3] H4] H5] H6].
+  repeat split; try lia.
+  intro Hne. assert (Hm : s_med4 s / 2 = conv_median2 (sortZ data)) by lia. rewrite Hm.
+  rewrite <- (is_median2_perm _ _ _ (sortZ_perm data)). apply med2_is_median.
+  - apply SS_sortedZ, sortZ_sorted.
+  - intro E. apply Hne. apply Permutation_nil. rewrite <- E. apply sortZ_perm.
+Qed.
+
+(* the repaired summary passes the checker on every input *)
+Lemma summary_fixed_passes data : C20_summary_check data (res_opt (stats_summary true data)) = true.
+Proof.
+  unfold stats_summary. rewrite fms_fixed_ok. cbn [bind]. rewrite fms_fixed_ok. cbn [bind].
+  rewrite fms_fixed_ok. cbn [bind res_opt C20_summary_check s_med4 s_q1_4 s_q3_4 s_iqr4 s_lf4 s_uf4].
+  unfold med2. rewrite !andb_true_iff. repeat split; lia.
 Qed.
